@@ -167,9 +167,11 @@ pub fn generate(seed: u64, n: usize, _tier: &str, emit: &mut dyn FnMut(String)) 
         "5b36600057",                                                  // vm loop
         "6001600055600260015560036002556000546001540160035500",        // storage: lifting / inference / unification / layout
         "33600052602060002060005460010160005500",
+        // plain slots mixed with packed ones (two fields each): the layout loop adds two entries for one slot
+        "6000546000526001548067ffffffffffffffff1660405260401c6fffffffffffffffffffffffffffffffff166060526002548067ffffffffffffffff1660805260401c6fffffffffffffffffffffffffffffffff1660a0526003548067ffffffffffffffff1660c05260401c6fffffffffffffffffffffffffffffffff1660e05260055460005260065460005200",
     ];
     for f in fixed {
-        for every in [1usize, 2, 3, 7, 100] {
+        for every in [1usize, 2, 3, 4, 7, 100] {
             emit(format!("30000000,10,50,250,394,0 {every} {f}"));
         }
     }
